@@ -146,14 +146,50 @@ def _leg_roles(u: Unit, node_names: Set[str], flags: Optional[Dict[str, bool]] =
     def add(ax, r):
         roles.setdefault(ax, set()).add(r)
 
-    def node_axis(e):
+    def node_axis(e, _depth=0):
         if isinstance(e, ast.Subscript) and dotted(e.value) in node_names:
             if isinstance(e.slice, ast.Constant):
                 return e.slice.value
             vals = axis_values(du, case, du.node_of(e), e.slice)
             if len(vals) == 1:
                 return next(iter(vals))
+        if isinstance(e, ast.Name) and _depth < 3:
+            # an edge of the node held in a local: `past = node[0] ... bond ^ past`
+            nid_e = du.node_of(e)
+            if nid_e is None:
+                return None
+            axes = set()
+            for d in du.reaching(nid_e, e.id):
+                v = d.value
+                if v is None:
+                    return None
+                idx = [s_[1] for s_ in (d.sel or ()) if s_[0] == "idx"]
+                if isinstance(v, (ast.Tuple, ast.List)) and len(idx) == 1 and idx[0] < len(v.elts):
+                    v = v.elts[idx[0]]
+                elif len(idx) == 1 and len(d.sel) == 1 and any(
+                        isinstance(st, ast.Assign) and st.value is v
+                        and any(isinstance(t, ast.Name) and t.id in node_names for t in st.targets)
+                        for st in walk_local(u.node)):
+                    # the def-use layer reads `a, b = (node[0], node[1])` as unpacking the node
+                    axes.add(idx[0])
+                    continue
+                elif d.sel:
+                    return None
+                axes.add(node_axis(v, _depth + 1))
+            if len(axes) == 1 and None not in axes:
+                return next(iter(axes))
         return None
+
+    def pairs(st):
+        """(target, value) pairs of an assignment, tuple displays element by element"""
+        out = []
+        for t in st.targets:
+            if isinstance(t, (ast.Tuple, ast.List)) and isinstance(st.value, (ast.Tuple, ast.List)) \
+                    and len(t.elts) == len(st.value.elts):
+                out += list(zip(t.elts, st.value.elts))
+            else:
+                out.append((t, st.value))
+        return out
     for x in walk_local(u.node):
         nid_x = du.node_of(x)
         if nid_x is not None and nid_x not in reach:
@@ -194,9 +230,13 @@ def _leg_roles(u: Unit, node_names: Set[str], flags: Optional[Dict[str, bool]] =
                 elif o == "other":
                     add(ax, "BOND_FUTURE")       # the running cap
         # edges taken from the node: where do they end up?
-        if isinstance(x, ast.Assign) and node_axis(x.value) is not None:
-            ax = node_axis(x.value)
-            for t in x.targets:
+        for t, v_ in (pairs(x) if isinstance(x, ast.Assign) else ()):
+            if not isinstance(v_, ast.Subscript):
+                continue
+            ax = node_axis(v_)
+            if ax is None:
+                continue
+            if True:
                 sr = _store_role(t)
                 if sr == "SYS":
                     add(ax, "SYS_OUT")
@@ -406,7 +446,20 @@ def m4(prog: Program, chk: Check) -> None:
         app = [c for c in walk_local(u.node) if isinstance(c, ast.Call) and method_call(c)
                and method_call(c)[1] == "append"]
         ok = len(calls) == 1 and len(app) == 1
-        if ok:
+        comps = [x for x in walk_local(u.node) if isinstance(x, ast.ListComp)
+                 and len(calls) == 1 and x.elt is calls[0]]
+        if len(calls) == 1 and not app and comps:
+            # the same collection written as a comprehension over the list, returned as it is
+            lc = comps[0]
+            g0 = lc.generators[0]
+            rets = [r for r in walk_local(u.node) if isinstance(r, ast.Return)]
+            ok = len(lc.generators) == 1 and not g0.ifs and isinstance(g0.target, ast.Name) \
+                and norm(g0.iter) == "process_tensors" \
+                and isinstance(calls[0].func.value, ast.Name) and calls[0].func.value.id == g0.target.id \
+                and len(calls[0].args) == 1 and norm(calls[0].args[0]) == "step" \
+                and len(rets) == 1 and rets[0].value is not None \
+                and ast.dump(origin(du, du.node_of(rets[0]), rets[0].value) or rets[0]) == ast.dump(lc)
+        elif ok:
             recv = origin_text(du, du.node_of(calls[0]), calls[0].func.value)
             arg = origin_text(du, du.node_of(calls[0]), calls[0].args[0]) if calls[0].args else ""
             # entry i of the result comes from process tensor i (ascending list order), same step
